@@ -235,6 +235,31 @@ def _check_env(case: dict) -> Result:
             if env.action_masks()[a]:
                 env.step(a)
                 probe_all(f"after step {a}")
+        # random walk of steps and unsteps in ANY order (not only last-in-first-out): the table must always be the one a
+        # fresh object computes from the same knowledge
+        from .. import libgames, repo
+        n = game["n"]
+        v = game["v"]
+        explorable = [c.id for c in env.explorable_coalitions]
+        for j, w in enumerate(case.get("walk", [])):
+            if res.failures:
+                break
+            mask = [bool(x) for x in env.action_masks()]
+            valid = [i for i in range(nact) if mask[i]]
+            revealed = [i for i in range(nact) if not mask[i]]
+            if w % 2 == 0 and valid:
+                env.step(valid[(w // 2) % len(valid)])
+            elif revealed:
+                env.unstep(revealed[(w // 2) % len(revealed)])
+            else:
+                continue
+            known = {s for s in range(1 << n) if env.incomplete_game.is_value_known(repo.coal(s))}
+            fresh = repo.new_game(n, case["computer"])
+            repo.set_knowledge(fresh, v, known)
+            fresh.compute_bounds()
+            probes += 1
+            if repo.table_bytes(fresh) != repo.table_bytes(env.incomplete_game):
+                res.fail(f"env-history-dependent :: walk op {j}: table after step/unstep walk differs from a fresh object with the same knowledge {sorted(known)}")
     res.nontrivial = probes >= 2
     res.label("env", f"n={game['n']}", f"comp={case['computer']}", f"gap={case['gap']}")
     res.labels.append(f"probes={min(probes, 50)}")
@@ -349,7 +374,8 @@ def env_cases(draw, n_min: int, n_max: int):
     nact = (1 << n) - n - 2
     actions = draw(st.lists(st.integers(0, nact - 1), min_size=0, max_size=min(nact, 6), unique=True))
     return {"kind": "env", "game": game, "computer": comp, "gap": draw(st.sampled_from(["exploitability", "l1_norm", "l2_norm", "linf_norm"])),
-            "budget": draw(st.sampled_from([None, None, 1, 3])), "actions": actions}
+            "budget": draw(st.sampled_from([None, None, 1, 3])), "actions": actions,
+            "walk": draw(st.lists(st.integers(0, 63), max_size=12))}
 
 
 def _sample(case):
@@ -364,9 +390,9 @@ def _sample(case):
 
 def plan(tier: str) -> list[dict]:
     if tier == "quick":
-        return ([{"mode": "machine", "max_n": 5, "examples": 60, "steps": 25, "cost": 4} for _ in range(4)]
-                + [{"mode": "env", "n_min": 4, "n_max": 5, "examples": 60, "cost": 2},
-                   {"mode": "env3", "examples": 12, "cost": 2}])
+        return ([{"mode": "machine", "max_n": 5, "examples": 70, "steps": 25, "cost": 4} for _ in range(6)]
+                + [{"mode": "env", "n_min": 4, "n_max": 5, "examples": 120, "cost": 2} for _ in range(2)]
+                + [{"mode": "env3", "examples": 30, "cost": 2}])
     return ([{"mode": "machine", "max_n": 5, "examples": 400, "steps": 50, "with_1000": True, "cost": 10} for _ in range(9)]
             + [{"mode": "machine", "max_n": 6, "examples": 120, "steps": 40, "cost": 10} for _ in range(3)]
             + [{"mode": "env", "n_min": 4, "n_max": 5, "examples": 600, "cost": 8} for _ in range(3)]
